@@ -595,7 +595,7 @@ def all_cases(seed):
 
 
 def main():
-    rep = report.Report(PID, "exhaustive_enumeration")
+    rep = report.Report(PID, "exploration")
     if not constants_agree():
         rep.violation(report.viol("flag-constants-renumbered", "the numeric flag layout differs from the one the oracle was written for", ["constants"]))
         return rep.finish()
